@@ -473,6 +473,49 @@ def aggregate_uses_own_result(case: dict, failure: dict) -> bool:
     return False
 
 
+def negated_minmax_unfolded_in_recursive_rule(case: dict, failure: dict) -> bool:
+    """F20: the minmax step replaced a NEGATED `not t > #max{..}` / `not t < #min{..}` by its element condition written positively
+    (`cond; not t > w`), and a predicate of that condition depends on a head predicate of the same statement: the dependency
+    through `not` has become a positive loop"""
+    before, after = _prg(_before(case, failure)), _prg(_after(case, failure))
+    after_lits = {str(b) for b in _body_lits(_after(case, failure))}
+    deps: dict = {}
+    for stm in before:
+        if stm.ast_type != ASTType.Rule:
+            continue
+        body = set()
+        for b in stm.body:
+            body.update(astutil.atoms_in(b))
+        for h in astutil.head_atoms(stm):
+            for sig in astutil.atoms_in(h):
+                deps.setdefault(sig, set()).update(body)
+                deps[sig].update(x for hh in astutil.head_atoms(stm) for x in astutil.atoms_in(hh) if False)
+    def reach(start: set) -> set:
+        seen, todo = set(start), list(start)
+        while todo:
+            for nxt in deps.get(todo.pop(), ()):
+                if nxt not in seen:
+                    seen.add(nxt)
+                    todo.append(nxt)
+        return seen
+    for stm in before:
+        if stm.ast_type != ASTType.Rule:
+            continue
+        heads = {sig for h in astutil.head_atoms(stm) for sig in astutil.atoms_in(h)}
+        for lit in stm.body:
+            if lit.ast_type != ASTType.Literal or lit.atom.ast_type != ASTType.BodyAggregate or int(lit.atom.function) not in (3, 4):
+                continue
+            if int(lit.sign) != 1 or str(lit) in after_lits:
+                continue
+            inner = set()
+            for el in lit.atom.elements:
+                for c in el.condition:
+                    inner.update(astutil.atoms_in(c))
+            if reach(inner) & heads:
+                return True
+    return False
+
+
 def out_only_aux_collision(case: dict, failure: dict) -> bool:
     """F-outdecl (semantic face): OUT declares a predicate that does not occur in the source and the result defines exactly that predicate"""
     if case.get("OUT") in (None, "auto"):
@@ -538,6 +581,7 @@ TRIGGERS: dict[str, Callable[[dict, dict], bool]] = {
     "math_sumplus_negative_weight": math_sumplus_negative_weight,
     "equality_between_globals_in_aggregate": equality_between_globals_in_aggregate,
     "aggregate_uses_own_result": aggregate_uses_own_result,
+    "negated_minmax_unfolded_in_recursive_rule": negated_minmax_unfolded_in_recursive_rule,
     "variant_uses_hardwired_variable": variant_uses_hardwired_variable,
     "source_uses_hardwired_variable": source_uses_hardwired_variable,
     "symmetry_groups_of_different_size": symmetry_groups_of_different_size,
